@@ -40,8 +40,11 @@ def gen(rng, tier):
             vals = sorted([G.q(rng, 12) for _ in range(n)], reverse=rng.random() < 0.5)
             for i in range(n):
                 rows[i][i] = vals[i]
+        mm = dict(rows=rows)
+        dt = G.typed(mm, rng) if style in ("plain", "ties", "flat") else G.pick_dtype(rows, rng)
+        rows = mm["rows"]
         yield dict(n=n, M=[[fs(x) for x in row] for row in rows], const=fs(G.q(rng)), kind=rng.choice(G.KINDS),
-                   pattern=rng.choice(PATTERNS), style=style, obj_stats=rng.random() < 0.85)
+                   pattern=rng.choice(PATTERNS), style=style, obj_stats=rng.random() < 0.85, dtype=dt)
 
 
 def shrink(case):
@@ -83,7 +86,7 @@ def run_case(case, drv):
                      f"gap:{'none' if gap is None else 'some'}", f"multiple_optima:{cnt > 1}"]
     res.nontrivial = n >= 2 and len(set(vals)) >= 2
 
-    obj = G.to_container(M, kind)
+    obj = G.to_container(M, kind, dtype=case.get("dtype"))
     try:
         C = qt.QUBOContainer(obj, float(const), pat)
         rep = C.report(obj_stats=case["obj_stats"])
